@@ -211,9 +211,141 @@ def rule_update_index_guard(ctx, cfg='prod-all'):
                  fact={'update_index+1<=n': strict, 'update_index+2<=n': too_strict}, expected={'update_index+1<=n': True, 'update_index+2<=n': False})
     # the generator used is values[update_index + 1] i.e. H[update_index]
     g = [(bi, t) for bi, t in us.calls() if (t.get('callee') or '') == 'core::slice::<impl [T]>::get']
+    if not g:
+        yield Ob('RF-M', '%s#generator-offset' % us.path, False, 'the updated message position i selects generators.values[i + 1] (H_i), as in sign/verify', us.span,
+                 fact='no checked access values[1..].get(update_index) found', expected='values[1..][update_index]')
     for bi, t in g:
         d = z.desc_place(t['args'][0]['pl'])
         idx = z.term_op(t['args'][1])
         ok = d[0] == 'sub' and d[2][0] == 'from' and d[2][1] == (None, 1) and idx == ti
         yield Ob('RF-M', '%s#generator-offset' % us.path, ok, 'the updated message position i selects generators.values[i + 1] (H_i), as in sign/verify', us.span,
                  fact={'slice': d[2][0] if d[0] == 'sub' else d[0], 'from': tfmt(d[2][1]) if d[0] == 'sub' else None, 'index': tfmt(idx)}, expected='values[1..][update_index]')
+
+
+# ---------------------------------------------------------------------------------- RF-T size thresholds
+# Branches that compare a length / count with a literal constant.  The drafts define behaviour uniformly in the number and size of
+# messages, headers and indexes; the only size-dependent decisions they contain are listed here.  Any other such branch is a
+# special case for some sizes that no fixture vector visits.
+THRESHOLDS = {
+    ('bbsplus::blind::<impl schemes::generics::BlindSignature<schemes::algorithms::BBSplus<CS>>>::blind_sign', 0): 'absent commitment (empty octet string)',
+    ('bbsplus::commitment::BBSplusCommitment::from_bytes', 48): 'framing: commitment point',
+    ('bbsplus::keys::key_gen', 32): 'KeyGen: key_material >= 32',
+    ('bbsplus::keys::key_gen', 65535): 'KeyGen: key_info <= 65535',
+    ('bbsplus::proof::BBSplusPoKSignature::from_bytes', 272): 'framing: minimal proof',
+    ('bbsplus::proof::BBSplusPoKSignature::from_bytes', 0): 'framing: whole scalars',
+    ('bbsplus::proof::BBSplusZKPoK::from_bytes', 64): 'framing: minimal commitment proof',
+    ('bbsplus::proof::BBSplusZKPoK::from_bytes', 0): 'framing: whole scalars',
+    ('utils::util::bbsplus_utils::calculate_blind_challenge', 0): 'at least one generator',
+    ('utils::util::bbsplus_utils::hash_to_scalar', 255): 'DST <= 255',
+    ('utils::util::bbsplus_utils::serialize', 0): 'empty array',
+    ('utils::util::bbsplus_utils::i2osp', 8): 'I2OSP width vs usize width',
+    ('utils::util::bbsplus_utils::i2osp', 0): 'I2OSP overflow test',
+    ('bbsplus::commitment::<impl schemes::generics::Commitment<schemes::algorithms::BBSplus<CS>>>::deserialize_and_validate_commit', 0): 'absent commitment',
+}
+
+
+def rule_size_thresholds(ctx, cfg='prod-all', scope=('bbsplus::', 'utils::util::bbsplus_utils', 'utils::message::bbsplus_message', 'utils::util::get_remaining')):
+    prog, za = ctx.prog(cfg), ctx.zone(cfg)
+    n = 0
+    for p, b in sorted(prog.bodies.items()):
+        if b.from_expansion or not p.startswith(scope):
+            continue
+        if b.kind != 'Closure':
+            za.summary(p)
+        zf = za.zf(p)
+        owner = p if b.kind != 'Closure' else b.j.get('parent_fn', p)
+        for bi, blk in enumerate(b.blocks):
+            if blk['cleanup']:
+                continue
+            t = blk['term']
+            if t['k'] != 'switch' or t['discr']['k'] not in ('copy', 'move') or t['discr']['pl'].get('p'):
+                continue
+            found = []
+            l = t['discr']['pl']['l']
+            if b.local_ty(l) in ('usize', 'u64', 'u32'):
+                tt = zf.term_local(l)
+                if tt is not None and tt[0] is not None:
+                    for v, _tb in t['targets']:
+                        if v.isdigit():
+                            found.append((tt[0], int(v) - tt[1]))
+            for _ in range(4):
+                d = zf.single_def(l)
+                if not d:
+                    break
+                if d[0] == 'assign' and d[2]['rv']['k'] == 'binop' and d[2]['rv']['op'] in ('Eq', 'Ne', 'Lt', 'Le', 'Gt', 'Ge'):
+                    a, c = zf.term_op(d[2]['rv']['a']), zf.term_op(d[2]['rv']['b'])
+                    if a is not None and c is not None and (a[0] is None) != (c[0] is None):
+                        sym, k = (a, c[1]) if c[0] is None else (c, a[1])
+                        # normalise `x + j  OP  k` to a threshold on x
+                        found.append((sym[0], k - sym[1]))
+                    break
+                if d[0] == 'assign' and d[2]['rv']['k'] == 'unop' and d[2]['rv']['op'] == 'Not' and d[2]['rv']['a']['k'] in ('copy', 'move'):
+                    l = d[2]['rv']['a']['pl']['l']
+                    continue
+                if d[0] == 'call' and (d[2].get('callee') or '').endswith(('::is_empty',)):
+                    found.append(('len', 0))
+                    break
+                break
+            for sym, k in found:
+                if sym is not None and sym.startswith('i'):
+                    continue      # loop induction variable against a constant: not a size decision
+                n += 1
+                ok = (owner, k) in THRESHOLDS
+                yield Ob('RF-T', '%s#threshold:%s' % (owner, k), ok,
+                         'a branch compares a length / count with the literal %s: size-dependent special cases must be the ones of the drafts' % k,
+                         '%s L%s' % (b.file(), t.get('line')), fact={'term': sym, 'constant': k, 'reason': THRESHOLDS.get((owner, k))},
+                         expected='tabled threshold')
+    yield Ob('RF-T', 'crate#threshold-census', n >= 10, 'size-threshold branches found', '', fact=n, expected='>= 10', nontrivial=False)
+
+
+# ---------------------------------------------------------------------------------- checked constructors
+# Every conversion of untrusted octets to a group element / scalar must go through a constructor that checks the curve equation,
+# the prime-order subgroup and the canonical range (bls12_381_plus).  Anything else (unchecked / reducing constructors) is tabled with a reason.
+CHECKED = {
+    'bls12_381_plus::G1Affine::from_compressed': 'curve + subgroup + canonical',
+    'bls12_381_plus::G2Affine::from_compressed': 'curve + subgroup + canonical',
+    'bls12_381_plus::G2Affine::from_uncompressed': 'curve + subgroup + canonical',
+    'bls12_381_plus::Scalar::from_be_bytes': 'rejects values >= r',
+}
+TABLED_OTHER = {
+    ('utils::util::bbsplus_utils::hash_to_scalar', 'bls12_381_plus::Scalar::from_okm'): 'hash_to_scalar reduces 48 uniform bytes mod r by design (draft-08 4.2.2)',
+    ('bbsplus::generators::Generators::create', 'bls12_381_plus::G1Projective::from_compressed_hex'): 'P1 constant of the ciphersuite',
+    ('bbsplus::generators::create_generators', 'bls12_381_plus::G1Projective::hash'): 'hash_to_curve output is in G1 by construction',
+}
+CONSTRUCTOR_PAT = ('::from_compressed', '::from_uncompressed', '::from_be_bytes', '::from_le_bytes', '::from_bytes', '::from_okm', '::from_raw',
+                   '::from_bytes_wide', '::from_be_hex', '::from_le_hex', '::from_compressed_hex', '::from_uncompressed_hex', '::hash', '::from_repr', '::from_uniform_bytes')
+CRYPTO_TYPES = ('bls12_381_plus::G1Affine', 'bls12_381_plus::G2Affine', 'bls12_381_plus::G1Projective', 'bls12_381_plus::G2Projective', 'bls12_381_plus::Scalar',
+                'bls12_381_plus::Gt', 'bls12_381_plus::G1Compressed', 'bls12_381_plus::G2Compressed')
+
+
+def rule_checked_constructors(ctx, cfg='prod-all'):
+    prog = ctx.prog(cfg)
+    n = 0
+    for p, b in sorted(prog.bodies.items()):
+        if b.from_expansion or not p.startswith(('bbsplus::', 'utils::util::bbsplus_utils', 'utils::message::bbsplus_message')):
+            continue
+        owner = p if b.kind != 'Closure' else b.j.get('parent_fn', p)
+        for bi, t in b.calls():
+            cal = t.get('resolved') or t.get('callee') or ''
+            cal0 = t.get('callee') or ''
+            if not cal0.startswith(CRYPTO_TYPES):
+                continue
+            last = '::' + cal0.split('::')[-1]
+            if not (last.startswith(CONSTRUCTOR_PAT) or 'unchecked' in last):
+                continue
+            n += 1
+            ok = cal0 in CHECKED or (owner, cal0) in TABLED_OTHER
+            yield Ob('RF-D', '%s#constructor:%s' % (owner, cal0.split('bls12_381_plus::')[-1]), ok,
+                     'octets become a group element / scalar only through a constructor that checks curve, subgroup and range', '%s L%s' % (b.file(), t['line']),
+                     fact={'callee': cal0, 'why': CHECKED.get(cal0) or TABLED_OTHER.get((owner, cal0))}, expected='checked constructor or tabled exception')
+    yield Ob('RF-D', 'crate#constructor-census', n >= 7, 'constructor call sites found', '', fact=n, expected='>= 7', nontrivial=False)
+    # subgroup / curve predicates used as a substitute for the checked constructors are suspicious: census must be empty
+    subst = []
+    for p, b in prog.bodies.items():
+        if b.from_expansion or not p.startswith(('bbsplus::', 'utils::')):
+            continue
+        for bi, t in b.calls():
+            cal0 = t.get('callee') or ''
+            if cal0.endswith(('::is_torsion_free', '::is_on_curve', '::clear_cofactor')):
+                subst.append('%s L%s: %s' % (p, t['line'], cal0))
+    yield Ob('RF-D', 'crate#manual-subgroup-checks', not subst, 'no hand-rolled curve / subgroup test replaces the checked constructors', '', fact=subst[:6], expected='none')
